@@ -128,7 +128,7 @@ func scenarioRelay() int {
 			n = ev.Pick(3000, 40000)
 		}
 	}
-	resent := 0
+	resent, unreachable := 0, 0
 	learn := newLearnModel(len(w.Svcs))
 	// the readiness barriers already taught every service the first UA
 	for s := range w.Svcs {
@@ -164,6 +164,26 @@ func scenarioRelay() int {
 				w.DropConn(p)
 			}
 			oversize++
+		}
+		if prop == "C06" && i%25 == 12 {
+			// requests whose next hop cannot be reached: the same peers the services have learned,
+			// under a tcp port where nobody listens. Not judged themselves - what is relayed to those
+			// peers afterwards is, like everything else: they are still learned.
+			p := wire.Path{UA: g.R.Intn(len(w.UAs)), Svc: g.R.Intn(len(w.Svcs)), Proto: []string{"udp", "tcp"}[g.R.Intn(2)]}
+			for _, h := range w.Hops {
+				for _, host := range []string{h.IP, h.Name} {
+					id := fmt.Sprintf("dead%d-%s", i, g.Alnum(3, 5))
+					m := wire.StdRequest(id, "OPTIONS", "sip:x@foreign.example", p.Proto, w.UAs[p.UA].IP, wire.UDPPort)
+					wire.InsertBefore(m, "from", sip.Header{Name: "Route", Value: fmt.Sprintf("<sip:%s:1;transport=tcp;lr>", host)}, sip.Header{Name: "Record-Route", Value: "<sip:edge.invalid;lr>"})
+					learn.observeRequest(w, p.Svc, p.Proto, w.UAs[p.UA].IP, m)
+					w.Send(p, m.Bytes(), id)
+					unreachable++
+				}
+			}
+			learn.learn(p.Svc, w.UAs[p.UA].IP, map[string]string{"udp": fmt.Sprintf("UDP:%d", w.Svcs[p.Svc].UDP), "tcp": fmt.Sprintf("TCP:%d", w.Svcs[p.Svc].TCP)}[p.Proto])
+			if !w.Barrier(p) {
+				w.DropConn(p)
+			}
 		}
 		if prop == "C01" && i%20 == 19 {
 			// pipelined: several messages written back-to-back on one connection (or from
@@ -336,6 +356,7 @@ func scenarioRelay() int {
 	}
 	run.Observe("oversize_responses_sent_in_between", oversize)
 	run.Observe("responses_sent_a_second_time_byte_for_byte", resent)
+	run.Observe("requests_routed_to_learned_peers_under_a_port_that_refuses", unreachable)
 	run.Observe("relays_per_path", relayed)
 	run.Observe("barriers", w.Barriers)
 	run.Observe("barrier_timeouts", w.BarrierMisses)
